@@ -2,9 +2,14 @@
    Property theorems only; every proof is `exact <lemma>` (Proofs/InversionProofs.v).
    The model is Matrix/Inversion.v instantiated at MathComp matrices over an
    ARBITRARY realFieldType R; m data values, n parameters, ANY model matrix A
-   (tall, wide, square, rank-deficient).  scipy.linalg.solve is exact. *)
+   (tall, wide, square, rank-deficient).  scipy.linalg.solve is exact.
+   K and the prior mean are built by mutable kernel / mean OBJECTS; the C17_history_*
+   theorems (Model/InversionHistory.v) say that after ANY sequence of inverter
+   constructions in one process each inverter's objects carry its own parameter
+   positions, so that the closed forms hold with the K of the inverter's own positions. *)
 From mathcomp Require Import all_ssreflect all_algebra.
 From IT Require Import Matrix.MxOps Matrix.McOps Matrix.Inversion Proofs.InversionProofs.
+From IT Require Import Model.InversionHistory Proofs.InversionHistoryProofs.
 
 Set Implicit Arguments.
 Unset Strict Implicit.
@@ -83,6 +88,35 @@ Qed.
 
 End Data.
 
+(* ---- construction histories ------------------------------------------------------
+   P: parameter positions; kern / meanf: what build_covariance / build_mean return (at
+   the hyper-parameters in question) as a function of the spatial data the object
+   holds.  After any history of constructions (defaults, classes, caller-made
+   instances each given to one constructor), inverter i -- constructed by call c --
+   returns the closed-form posterior of the prior N(meanf(own positions), kern(own
+   positions)). *)
+Section History.
+Variable P : Type.
+Variables (m n : nat).
+Variables (A : 'M[R]_(m, n)) (e y : 'cV[R]_m) (kern : P -> 'M[R]_n) (meanf : P -> 'cV[R]_n).
+
+Theorem C17_history_posterior k (cs : list (ctor_call P)) i c :
+  wf_history k cs -> List.nth_error cs i = Some c ->
+  let K := kern (cc_pos c) in let pm := meanf (cc_pos c) in
+  let J := A *m K *m A^T + @lin_sigma O m e in
+  (forall j, e j 0 != 0) -> J \in unitmx ->
+  eval_inverter (fun pc pmn => @calculate_posterior O m n A e y (kern pc) (meanf pmn))
+                (run_history k cs) i
+  = Some (pm + K *m A^T *m invmx J *m (y - A *m pm), K - K *m A^T *m invmx J *m A *m K).
+Proof.
+move=> wf ci K pm J e_nz uJ; rewrite (@history_eval_own _ _ _ _ _ _ _ wf ci); congr Some.
+rewrite [LHS]surjective_pairing; congr pair.
+- exact: calc_post_mean_closed.
+- exact: calc_post_cov_closed.
+Qed.
+
+End History.
+
 (* evidence: with L L^T = J (Cholesky), v = L^-1 r:
    -0.5 v.v = -0.5 r^T J^-1 r;  the value computed by the gradient routine is the
    same;  det J = (prod_i L_ii)^2 for triangular L, i.e. sum_i ln L_ii = 1/2 ln det J
@@ -119,6 +153,37 @@ Qed.
 
 End C17.
 
+(* every inverter's kernel and mean objects carry its own positions, and no two
+   inverters share an object *)
+Theorem C17_history_own_positions (P : Type) k (cs : list (ctor_call P)) :
+  wf_history k cs ->
+  (forall i c, List.nth_error cs i = Some c ->
+     cov_data (run_history k cs) i = Some (cc_pos c)
+     /\ mean_data (run_history k cs) i = Some (cc_pos c))
+  /\ List.NoDup (List.map iv_cov (st_invs (run_history k cs)))
+  /\ List.NoDup (List.map iv_mean (st_invs (run_history k cs))).
+Proof.
+move=> wf; split; first by move=> i c ci; exact: history_own_data.
+exact: history_no_sharing.
+Qed.
+
+(* the hypothesis built into the model -- a default argument is a class that each
+   constructor instantiates -- is needed: with defaults that are single objects the
+   first of two default constructions ends up with the second one's positions *)
+Theorem C17_history_shared_default_refuted :
+  exists cs : list (ctor_call nat),
+    wf_history 2 cs /\
+    exists c, List.nth_error cs 0 = Some c /\
+      cov_data (run_history_shared 2 0 1 cs) 0 <> Some (cc_pos c) /\
+      cov_data (run_history 2 cs) 0 = Some (cc_pos c).
+Proof. exact: shared_default_interferes. Qed.
+
+(* non-vacuity: a history mixing defaults, classes and two caller-made instances *)
+Example C17_history_example :
+  wf_history 2 [:: CtorCall KDefault KDefault 0%N; CtorCall (KInst 0) KClass 1%N;
+                   CtorCall KDefault (KInst 1) 2%N; CtorCall KClass KDefault 3%N].
+Proof. exact: wf_historyb_sound. Qed.
+
 Print Assumptions C17_inv_sigma.
 Print Assumptions C17_post_cov_closed.
 Print Assumptions C17_post_cov_precision.
@@ -128,3 +193,6 @@ Print Assumptions C17_post_cov_sym.
 Print Assumptions C17_post_cov_order.
 Print Assumptions C17_evidence_value.
 Print Assumptions C17_gradient_forms.
+Print Assumptions C17_history_posterior.
+Print Assumptions C17_history_own_positions.
+Print Assumptions C17_history_shared_default_refuted.
